@@ -21,6 +21,10 @@ inductive Op where
   | join (ep : Nat) (e : Env)
   | leave (ep : Nat) (e : Env)
   | get (e : Env)
+  /-- a request that carries a deadline event (`Deadline.EVENT_KEY`), not set yet -/
+  | getd (e : Env)
+  /-- the deadline event of the `k`-th queued request is set -/
+  | expire (k : Nat)
   | put (r j : Nat) (e : Env)
   | chan (nid st : Nat)
   | opened (nid : Nat) (ok : Bool) (e : Env)
@@ -45,6 +49,8 @@ def init (_ : Cfg) : St := { sub := AS.init }
 /-- one dispatch result as observed -/
 inductive ResV where
   | queued
+  /-- a queued request whose deadline event was set: not forwarded when the open result completed -/
+  | dropped
   | noMembers
   | node (id ep r : Nat)
   deriving Repr, DecidableEq
@@ -52,6 +58,11 @@ inductive ResV where
 def ResV.ofGet : GetRes → ResV
   | .noMembers => .noMembers
   | .node id ep r => .node id ep r
+
+/-- what became of a queued request when the open result completed -/
+def ResV.ofFlush : Option GetRes → ResV
+  | some g => .ofGet g
+  | none => .dropped
 
 structure NV where
   id : Nat
@@ -99,7 +110,7 @@ def obsOf (lb : St) (res : List ResV) : Obs :=
     initDone := lb.initDone
     blocked := lb.blocked.length
     openAr := a.openAr
-    queued := lb.queued
+    queued := lb.queued.length
     jitter := a.jitterWait.isSome
     total := a.total
     adj := a.adjLog
@@ -117,8 +128,16 @@ def act (cfg : Cfg) (lb : St) : Op → St × List ResV
   | .join ep e => ((feed lb e).notify (sub cfg) (.join ep), [])
   | .leave ep e => ((feed lb e).notify (sub cfg) (.leave ep), [])
   | .get e =>
-    let r := (feed lb e).request (sub cfg)
+    let r := (feed lb e).request (sub cfg) none
     (r.1, match r.2 with | some g => [ResV.ofGet g] | none => [.queued])
+  | .getd e =>
+    let r := (feed lb e).request (sub cfg) (some false)
+    (r.1, match r.2 with | some g => [ResV.ofGet g] | none => [.queued])
+  | .expire k =>
+    let lb1 := feed lb ⟨[], []⟩
+    (match lb1.expire k with
+     | some lb2 => lb2
+     | none => { lb1 with sub := { lb1.sub with bad := true } }, [])
   | .put r j e => let lb1 := feed lb e; ({ lb1 with sub := lb1.sub.put cfg r j }, [])
   | .chan nid st => let lb1 := feed lb ⟨[], []⟩; ({ lb1 with sub := lb1.sub.setChan nid st }, [])
   | .opened nid ok e => let lb1 := feed lb e; ({ lb1 with sub := lb1.sub.opened cfg nid ok }, [])
@@ -133,7 +152,7 @@ def stepSt (cfg : Cfg) (lb : St) (op : Op) : St × List ResV :=
   let r := act cfg lb op
   let f := r.1.finish (sub cfg)
   -- a request that was served at once is reported before those flushed from the queue
-  let res := (r.2.filter (· ≠ .queued)) ++ f.2.map ResV.ofGet ++ (r.2.filter (· = .queued))
+  let res := (r.2.filter (· ≠ .queued)) ++ f.2.map ResV.ofFlush ++ (r.2.filter (· = .queued))
   (tapesRead f.1, res)
 
 def step (cfg : Cfg) (lb : St) (op : Op) : St × Obs :=
@@ -170,6 +189,8 @@ def decOp : List V → Option Op
   | [.a "join", ep, c, a] => do pure (.join (← ep.nat?) (← decEnv c a))
   | [.a "leave", ep, c, a] => do pure (.leave (← ep.nat?) (← decEnv c a))
   | [.a "get", c, a] => do pure (.get (← decEnv c a))
+  | [.a "getd", c, a] => do pure (.getd (← decEnv c a))
+  | [.a "expire", k] => do pure (.expire (← k.nat?))
   | [.a "put", r, j, c, a] => do pure (.put (← r.nat?) (← j.nat?) (← decEnv c a))
   | [.a "chan", n, st] => do pure (.chan (← n.nat?) (← st.nat?))
   | [.a "opened", n, ok, c, a] => do pure (.opened (← n.nat?) (← ok.bool?) (← decEnv c a))
@@ -186,11 +207,13 @@ def decNV : V → Option NV
 
 def encRes : ResV → V
   | .queued => .a "queued"
+  | .dropped => .a "dropped"
   | .noMembers => .a "nomembers"
   | .node id ep r => .l [.a "node", V.ofNat id, V.ofNat ep, V.ofNat r]
 
 def decRes : V → Option ResV
   | .a "queued" => some .queued
+  | .a "dropped" => some .dropped
   | .a "nomembers" => some .noMembers
   | .l [.a "node", id, ep, r] => do pure (.node (← id.nat?) (← ep.nat?) (← r.nat?))
   | _ => none
@@ -299,11 +322,102 @@ def c06At (cfg : Cfg) (idx : Nat) (o : Obs) : Verdict :=
           .fail "below-min-size" [V.ofNat idx, V.ofNat o.heap.length]
         else Verdict.all (o.adj.map (c06Adj cfg idx))
 
-def specC06Go (cfg : Cfg) (idx : Nat) : List (Op × Obs) → Verdict
-  | [] => .ok
-  | (_, o) :: rest => (c06At cfg idx o).and (fun _ => specC06Go cfg (idx + 1) rest)
+/-! "load-tracking": `_total` is the number of requests dispatched and not yet completed.  The
+    history alone tells which dispatches are open: a result `node _ _ d` opens dispatch `d` (dispatches
+    are numbered in order of appearance), the operation `put d` closes it (a second `put d` changes
+    nothing).  The plain heap balancer keeps no total. -/
 
-def specC06 (cfg : Cfg) (h : List (Op × Obs)) : Verdict := specC06Go cfg 0 h
+def nodeFlags (rs : List ResV) : List Bool :=
+  rs.filterMap (fun r => match r with | .node _ _ _ => some false | _ => none)
+
+/-- `put d` closes dispatch `d` -/
+def flagsPut (fl : List Bool) : Op → List Bool
+  | .put r _ _ => fl.set r true
+  | _ => fl
+
+/-- per dispatch number: has it completed? -/
+def flagsAfter (fl : List Bool) (op : Op) (o : Obs) : List Bool := flagsPut fl op ++ nodeFlags o.res
+
+def expectedTotal (cfg : Cfg) (fl : List Bool) : Int := if cfg.aperture then (fl.count false : Nat) else 0
+
+def c06Total (cfg : Cfg) (idx : Nat) (fl : List Bool) (o : Obs) : Verdict :=
+  if o.total = expectedTotal cfg fl then .ok
+  else .fail "total-is-sum" [V.ofNat idx, .n o.total, .n (expectedTotal cfg fl)]
+
+def specC06Go (cfg : Cfg) (idx : Nat) (fl : List Bool) : List (Op × Obs) → Verdict
+  | [] => .ok
+  | (op, o) :: rest =>
+    let fl' := flagsAfter fl op o
+    (c06At cfg idx o).and (fun _ => (c06Total cfg idx fl' o).and (fun _ => specC06Go cfg (idx + 1) fl' rest))
+
+def specC06 (cfg : Cfg) (h : List (Op × Obs)) : Verdict := specC06Go cfg 0 [] h
+
+/-! ### C12, balancer hop: the gate in front of the open result
+
+  A request that arrives before the open result is complete waits for it.  The queue is rebuilt from
+  the operations (and from whether the request was reported `queued`): `none` a request without a
+  deadline event, `some false` one whose event is not set, `some true` one whose event has been set
+  (`expire k`: the timeout sink's timer fired for the `k`-th waiting request, its caller has its
+  TimeoutError).  An observation that reports nothing waiting any more is the one in which the open
+  result completed: its results, in order, are what became of the waiting requests. -/
+
+def gateArriveB (q : List (Option Bool)) (op : Op) (wasQueued : Bool) : List (Option Bool) :=
+  match op with
+  | .get _ => if wasQueued then q ++ [none] else q
+  | .getd _ => if wasQueued then q ++ [some false] else q
+  | .expire k =>
+    (match q[k]? with
+     | some (some _) => q.set k (some true)
+     | _ => q)
+  | _ => q
+
+def gateArrive (q : List (Option Bool)) (op : Op) (o : Obs) : List (Option Bool) :=
+  gateArriveB q op (o.res.contains .queued)
+
+/-- what became of the waiting requests, oldest first -/
+def Obs.flushed (o : Obs) : List ResV := o.res.filter (· ≠ .queued)
+
+/-- no request whose deadline event is set is forwarded to a member (or anywhere) -/
+def dropOk : List (Option Bool) → List ResV → Bool
+  | e :: q, r :: rs => (live e || decide (r = .dropped)) && dropOk q rs
+  | _, _ => true
+
+/-- every other waiting request is forwarded, once: one result per waiting request, and a live
+    request's result is a dispatch (to a member, or to the no-members sink), not a drop -/
+def liveOk : List (Option Bool) → List ResV → Bool
+  | [], [] => true
+  | e :: q, r :: rs => (!live e || (decide (r ≠ .dropped) && decide (r ≠ .queued))) && liveOk q rs
+  | _, _ => false
+
+def dispatchIds (rs : List ResV) : List Nat :=
+  rs.filterMap (fun r => match r with | .node _ _ d => some d | _ => none)
+
+/-- dispatch numbers grow along the list: the requests were forwarded in arrival order -/
+def increasing : List Nat → Bool
+  | a :: b :: rest => decide (a < b) && increasing (b :: rest)
+  | _ => true
+
+/-- `which`: 1 the drop clause only, 2 the forwarding clauses only, anything else both -/
+def gateAt (which idx : Nat) (q : List (Option Bool)) (o : Obs) : Verdict :=
+  if o.queued == 0 && !q.isEmpty then
+    if which ≠ 2 ∧ dropOk q o.flushed = false then .fail "timed-out-request-forwarded" [V.ofNat idx]
+    else if which ≠ 1 ∧ liveOk q o.flushed = false then .fail "waiting-request-not-forwarded-once" [V.ofNat idx]
+    else if which ≠ 1 ∧ increasing (dispatchIds o.flushed) = false then
+      .fail "forwarded-out-of-arrival-order" [V.ofNat idx]
+    else .ok
+  else .ok
+
+def gateNext (q : List (Option Bool)) (o : Obs) : List (Option Bool) := if o.queued == 0 then [] else q
+
+def specGateGo (which idx : Nat) (q : List (Option Bool)) : List (Op × Obs) → Verdict
+  | [] => .ok
+  | (op, o) :: rest =>
+    let q' := gateArrive q op o
+    (gateAt which idx q' o).and (fun _ => specGateGo which (idx + 1) (gateNext q' o) rest)
+
+def specGate (_ : Cfg) (h : List (Op × Obs)) : Verdict := specGateGo 0 0 [] h
+def specGateDrop (_ : Cfg) (h : List (Op × Obs)) : Verdict := specGateGo 1 0 [] h
+def specGateLive (_ : Cfg) (h : List (Op × Obs)) : Verdict := specGateGo 2 0 [] h
 
 /-! ### hypotheses -/
 
@@ -357,5 +471,8 @@ def comp5 : TComp Cfg St Op Obs where
   wf := wf
 
 def comp6 : TComp Cfg St Op Obs := { comp5 with spec := specC06 }
+
+/-- component `lbgate` (C12, balancer hop) -/
+def compGate : TComp Cfg St Op Obs := { comp5 with spec := specGate }
 
 end Scales.LB
